@@ -78,6 +78,10 @@ Definition run_c20 (inp : list Z) : list Z :=
     match pall (c <- pcubeQ ;; f <- pZ ;; pret (c, f)) rest with
     | Some (c, f) => eresult ecubeQ (rebin3 c f)
     | None => emalformed end
+  | 12 :: rest =>  (* window, cube *)
+    match pall (c <- pcubeQ ;; sh <- popt p2 ;; sl <- popt p4 ;; pret (c, sh, sl)) rest with
+    | Some (c, sh, sl) => eresult ecubeQ (window3 c sh sl)
+    | None => emalformed end
   | 20 :: n :: m :: rest =>   (* circle *)
     match pall (r <- pQ ;; s0 <- pQ ;; s1 <- pQ ;; aa <- pbool ;; pret (r, s0, s1, aa)) rest with
     | Some (r, s0, s1, aa) => 0 :: earrQ (@circle QS qle qsqrt n m r s0 s1 aa)
